@@ -1,6 +1,7 @@
 package harness
 
 import (
+	"bytes"
 	"fmt"
 	"reflect"
 	"regexp"
@@ -30,6 +31,8 @@ type C08Case struct {
 	// dozen further Regexp terminals with distinct expressions take part: a literal's result must not
 	// depend on what the reader was used for before
 	Shared bool `json:"shared,omitempty"`
+	// Pre > 0: the file is the second one of its set, behind a file of that many bytes
+	Pre int `json:"pre,omitempty"`
 }
 
 func (c *C08Case) Describe() string {
@@ -100,6 +103,9 @@ func genC08(t *rapid.T) interface{} {
 	re := c08Regexps[rapid.IntRange(0, len(c08Regexps)-1).Draw(t, "regexp")]
 	c.Regexp, c.Group = re.Expr, re.Group
 	c.Shared = rapid.IntRange(0, 2).Draw(t, "sharedReader") == 0
+	if rapid.IntRange(0, 2).Draw(t, "placed") == 0 {
+		c.Pre = rapid.SampledFrom([]int{1, 2, 5, 40, 300, 65536}).Draw(t, "pre")
+	}
 	return c
 }
 
@@ -197,6 +203,14 @@ func checkLiterals(c *C08Case, st *Stats) (err error) {
 	if len(d) != f.Len() {
 		return fmt.Errorf("file length %d differs from the CRLF-normalised content length %d", f.Len(), len(d))
 	}
+	fs := parsley.NewFileSet(f)
+	if c.Pre > 0 {
+		fs = parsley.NewFileSet(text.NewFile("pre", bytes.Repeat([]byte("0"), c.Pre)), f)
+		if st != nil {
+			st.Class("file placed behind another file")
+		}
+	}
+	base := int(f.Pos(0))
 	nontrivial := false
 	entries := c08Parsers(c)
 	type job struct {
@@ -242,7 +256,7 @@ func checkLiterals(c *C08Case, st *Stats) (err error) {
 				if rd == nil {
 					rd = text.NewReader(f)
 				}
-				ctx := parsley.NewContext(parsley.NewFileSet(f), rd)
+				ctx := parsley.NewContext(fs, rd)
 				node, _, perr = e.p.Parse(ctx, data.EmptyIntMap, f.Pos(off))
 				return nil
 			}(); pe != nil {
@@ -251,11 +265,11 @@ func checkLiterals(c *C08Case, st *Stats) (err error) {
 			if (node == nil) == (perr == nil) {
 				return fmt.Errorf("%s at offset %d returned node=%v and error=%v (exactly one expected)", e.name, off, node, perr)
 			}
-			if perr != nil && (int(perr.Pos()) < off+1 || int(perr.Pos()) > len(d)+1) {
-				return fmt.Errorf("%s at offset %d: error position %d is outside [%d,%d]", e.name, off, int(perr.Pos())-1, off, len(d))
+			if perr != nil && (int(perr.Pos()) < off+base || int(perr.Pos()) > len(d)+base) {
+				return fmt.Errorf("%s at offset %d: error position %d is outside [%d,%d]", e.name, off, int(perr.Pos())-base, off, len(d))
 			}
-			if node != nil && (int(node.Pos()) != off+1 || int(node.ReaderPos()) <= off+1 || int(node.ReaderPos()) > len(d)+1) {
-				return fmt.Errorf("%s at offset %d: node spans %d..%d (file length %d)", e.name, off, int(node.Pos())-1, int(node.ReaderPos())-1, len(d))
+			if node != nil && (int(node.Pos()) != off+base || int(node.ReaderPos()) <= off+base || int(node.ReaderPos()) > len(d)+base) {
+				return fmt.Errorf("%s at offset %d: node spans %d..%d (file length %d)", e.name, off, int(node.Pos())-base, int(node.ReaderPos())-base, len(d))
 			}
 			if want.Lenient {
 				if st != nil {
@@ -286,8 +300,8 @@ func checkLiterals(c *C08Case, st *Stats) (err error) {
 			for _, a := range want.Alt {
 				okv = okv || reflect.DeepEqual(got, a)
 			}
-			if int(node.ReaderPos()) != want.End+1 {
-				return fmt.Errorf("%s at offset %d ends at %d, the longest literal of its syntax ends at %d", e.name, off, int(node.ReaderPos())-1, want.End)
+			if int(node.ReaderPos()) != want.End+base {
+				return fmt.Errorf("%s at offset %d ends at %d, the longest literal of its syntax ends at %d", e.name, off, int(node.ReaderPos())-base, want.End)
 			}
 			if !okv {
 				return fmt.Errorf("%s at offset %d has value %#v, decoding %q gives %#v", e.name, off, got, d[off:want.End], want.Value)
